@@ -65,3 +65,15 @@ PROPS = {
     "C19": P(TV, "Debug::fmt call sequence: debug_struct(name), then per declared field getter + field(label, &getter result) in order, then finish; nothing else",
              "Rendering by core::fmt::DebugStruct is trusted.", [A_DECL], anchor="bitbybit/src/bitfield/mod.rs: debug_trait"),
 }
+
+
+# floors = 90 % of the obligation counts measured on the unchanged tree (quick: min over seeds 0 and 1; thorough: seed 0)
+_COUNTED = {
+    "quick": {"C01": 6179, "C02": 75915, "C03": 71354, "C04": 4608, "C05": 4267, "C06": 14578, "C07": 5525, "C08": 1606, "C09": 2647, "C10": 682,
+              "C11": 28818, "C12": 99157, "C13": 3989, "C14": 4100, "C15": 35970, "C16": 85337, "C17": 101744, "C18": 2805, "C19": 33},
+    "thorough": {"C01": 65124, "C02": 463539, "C03": 295521, "C04": 45859, "C05": 26217, "C06": 43368, "C07": 10116, "C08": 4705, "C09": 7294,
+                 "C10": 1011, "C11": 344759, "C12": 604353, "C13": 12317, "C14": 12453, "C15": 214622, "C16": 479947, "C17": 703340, "C18": 7342,
+                 "C19": 74},
+}
+for _pid, _m in PROPS.items():
+    _m["floor"] = {"quick": _COUNTED["quick"][_pid] * 9 // 10, "thorough": _COUNTED["thorough"][_pid] * 9 // 10}
